@@ -33,6 +33,7 @@ NO_OMISSION_REASON = {
     ("groovy", "func"): "Groovy methods are printed with their return type (Closure<T> for nested functions)",
 }
 WRITTEN_BY_OVERWRITE = {"var": {"var_type", "inferred_type"}, "func": {"ret_type", "inferred_type"}}
+BOOL_MODIFIERS = {"is_final", "can_override", "override", "vararg"}
 REQUIRED_READS = {
     "visit_class_decl": {"*": {"name", "is_final", "fields", "functions", "superclasses", "children"},
                          "_one_of": [{"class_type", "get_class_prefix"}]},
@@ -253,6 +254,24 @@ def r4_inventory(repo):
             obs.append(Ob("C12-R4", "%s:%s:reads-every-expressible-attribute" % (lang, vname), _w(m), not missing,
                           "%s.%s must read %s of the node; missing: %s" % (lang, vname, sorted(need), missing),
                           {"reads": sorted(x for x in reads if x)}))
+            # boolean modifiers are independent attributes of the IR: each must be consulted on its own, i.e. at
+            # least one of its reads is not control-dependent on another modifier of the same node (otherwise the text
+            # does not depend on it on the other branch and two different declarations print alike)
+            for a in sorted(need & BOOL_MODIFIERS):
+                rs = [n for n in ast.walk(m.node) if isinstance(n, ast.Attribute) and isinstance(n.value, ast.Name)
+                      and n.value.id == p and n.attr == a]
+                if not rs:
+                    continue
+                free = []
+                for n in rs:
+                    dep = [src(t) for t, _pol in flat_guards(n) if not any(x is n for x in ast.walk(t)) and any(
+                        isinstance(x, ast.Attribute) and isinstance(x.value, ast.Name) and x.value.id == p and
+                        x.attr in BOOL_MODIFIERS and x.attr != a for x in ast.walk(t))]
+                    if not dep:
+                        free.append(n)
+                obs.append(Ob("C12-R4", "%s:%s:%s-consulted-independently" % (lang, vname, a), _w(m, rs[0]), bool(free),
+                              "every read of %s.%s in %s.%s happens only under a test of another modifier of the node; on "
+                              "the other branch the emitted text does not depend on it" % (p, a, lang, vname)))
     return obs
 
 
